@@ -107,7 +107,7 @@ def rand_stream(kind, n):
 
 HUGE_QUICK = 10     # two per worker with 5 workers, ~2 s each
 ENTRY_FORMS = ("ctor-seek", "ctor-seek-index", "sweep-forward", "sweep-backward", "copy", "options", "null",
-               "root-threshold-2", "aslist", "trees-options", "repeat")
+               "root-threshold-2", "aslist", "trees-options", "repeat", "same-question-after-move")
 
 
 def cases(tier, seed):
@@ -1194,6 +1194,50 @@ def run_entry(case, ctx, rng):
         tag_tree(ctx, T)
         random_calls(ctx, T, rng, ncalls)
 
+    if form == "same-question-after-move":
+        # ONE Tree object, the SAME genotype vector / alleles / fixed state asked again after every kind of move: the answer
+        # must be the one for the tree the object is on now (nothing remembered from where it was)
+        ns = len(samples)
+        if ns == 0 or nt < 2:
+            ctx.feature("entry:same-question:not-applicable")
+            form = "ctor-seek"
+        else:
+            alleles = ("A", "C", "G")
+            geno = [rng.choice([0, 1, 1, 2]) for _ in range(ns)]
+            if len(set(geno)) == 1:
+                geno[0] = (geno[0] + 1) % 3
+            if ns > 3 and rng.random() < 0.4:
+                geno[rng.randrange(ns)] = MISSING
+                if all(g == MISSING for g in geno):
+                    geno[0] = 0
+            anc = rng.choice([None, None, 0, "C", 2])
+            t = tskit.Tree(ts, sample_lists=rng.random() < 0.3)
+            t.first()
+            moves = ["seek_index", "seek", "seek_index", "next", "seek", "prev", "last", "seek_index", "first", "seek"]
+            rng.shuffle(moves)
+            for mv in ["none"] + moves[:6]:
+                if mv == "seek_index":
+                    t.seek_index(rng.choice([i for i in range(nt) if i != t.index] or [0]))
+                elif mv == "seek":
+                    others = [i for i in range(nt) if i != t.index] or [0]
+                    bp = m.breakpoints()
+                    i = rng.choice(others)
+                    t.seek((bp[i] + bp[i + 1]) / 2)
+                elif mv == "next":
+                    if not t.next():
+                        t.first()
+                elif mv == "prev":
+                    if not t.prev():
+                        t.last()
+                elif mv == "last":
+                    t.last()
+                elif mv == "first":
+                    t.first()
+                ctx.count("oracle:same-question-after-move")
+                ctx.feature("same-question-after:" + mv)
+                T = TreeCtx(ts, t, m, float(t.interval.left), note=f"same genotypes asked again after {mv}")
+                check_call(ctx, T, list(geno), alleles, anc)
+            return
     if form == "ctor-seek":
         t = tskit.Tree(ts)
         for _ in range(2):
